@@ -310,12 +310,31 @@ def main():
         for split in splits:
             for regu in (["AT2"] if not thorough else ["AT1", "AT2"]):
                 mats = [True] if split in ISOT_ONLY else ([False] if not thorough else [False, True])
+                if split not in ISOT_ONLY and (split in ("He", "Zhang", "AnisotStress") or thorough):
+                    mats = mats + ["aniso"]
                 for isot in mats:
-                    mat = make_material(rng, dim, isot)
+                    if isot == "aniso":
+                        # a fully anisotropic law given by its matrix (Kelvin-Mandel), symmetric positive definite
+                        nA = 3 if dim == 2 else 6
+                        RA = np.array([[rng.randint(-2, 2) / 4 for _ in range(nA)] for _ in range(nA)])
+                        CA0 = 10.0 * (np.eye(nA) + 0.25 * (RA @ RA.T))
+                        mat = E_.Anisotropic(dim, CA0, False)
+                    else:
+                        mat = make_material(rng, dim, isot)
                     for phase in (0, 1):
                         if phase == 1:
                             # the same model object after a material parameter was assigned: every derived quantity follows the new stiffness
-                            if isinstance(mat, E_.Isotropic):
+                            if isinstance(mat, E_.Anisotropic):
+                                # the stiffness alone is replaced (documented option update_S=False, or the C setter): the splits read C and its roots
+                                RB = np.array([[rng.randint(-2, 2) / 4 for _ in range(nA)] for _ in range(nA)])
+                                CA1 = 7.0 * (np.eye(nA) + 0.5 * (RB @ RB.T))
+                                if split != "He":
+                                    mat.Set_C(CA1, False)          # the stress-based splits read S as well: both are replaced
+                                elif rng.random() < 0.5:
+                                    mat.Set_C(CA1, False, update_S=False)
+                                else:
+                                    mat.C = CA1
+                            elif isinstance(mat, E_.Isotropic):
                                 mat.E = mat.E * 1.75
                                 mat.v = 0.125
                             elif isinstance(mat, E_.TransverselyIsotropic):
@@ -465,10 +484,12 @@ def main():
 
     # ---------------- histories ----------------
     for solver in ("History", "HistoryDamage", "BoundConstrain"):
-        for split, meshname in [(sp_, "QUAD4") for sp_ in (["Amor", "Miehe"] if not thorough else ["Bourdin", "Amor", "Miehe", "AnisotStress", "He", "Zhang"])] + [("Miehe", "TRI3+QUAD4")]:
-            # the last one: a mesh with two element groups of the main dimension (triangles glued to quadrangles)
-            mesh = M.mesh_2d("QUAD4", 2.0, 1.0, 0.5) if meshname == "QUAD4" else M.mesh_mixed_2d(h=1 / 2)
-            xmax = 2.0 if meshname == "QUAD4" else 3.0
+        for split, meshname in [(sp_, "QUAD4") for sp_ in (["Amor", "Miehe"] if not thorough else ["Bourdin", "Amor", "Miehe", "AnisotStress", "He", "Zhang"])] + [("Miehe", "TRI3+QUAD4")] \
+                + [("Amor", "TRI3")] + ([("Miehe", "TRI6"), ("Amor", "QUAD8")] if thorough else []):
+            # "TRI3+QUAD4": a mesh with two element groups of the main dimension (triangles glued to quadrangles);
+            # TRI3 / TRI6 / QUAD8: elements whose 'rigi' and 'mass' rules have different numbers of points
+            mesh = M.mesh_mixed_2d(h=1 / 2) if meshname == "TRI3+QUAD4" else M.mesh_2d(meshname, 2.0, 1.0, 0.5)
+            xmax = 3.0 if meshname == "TRI3+QUAD4" else 2.0
             sfx = "" if meshname == "QUAD4" else f" mesh={meshname}"
             mat = E_.Isotropic(2, E=210.0, v=0.3, planeStress=True, thickness=1.0)
             pfm = Models.PhaseField(mat, split, "AT2", 0.5, 0.4, solver=solver)
@@ -485,6 +506,10 @@ def main():
                 s.add_dirichlet(right, [ld], ["x"])
                 try:
                     s.Solve(tolConv=rng.choice([1.0, 1e-2, 1e-4]), maxIter=6)   # several staggered iterations inside one step
+                    if k % 2 == 1:
+                        # post-processing between the solve and the save (the usual place for it in a loading loop) reads, it does not write
+                        for rn_ in ("psiP", "Stress", "Wdef", "damage"):
+                            s.Result(rn_, nodeValues=bool(k % 4 == 1))
                     s.Save_Iter()
                 except Exception as ex:  # noqa: BLE001
                     res.fail(f"history solve raises solver={solver} split={split}{sfx}", f"{type(ex).__name__} at step {k}: {str(ex)[:120]}", ident)
